@@ -17,6 +17,10 @@
  *                                                                          duplicates, label alphabets, concurrent disturber
  *        c06_drv <out.ndjson> hist   <seed> <ncases>                       in-process histories: fit A, free, fit B at the addresses A had, into the output A filled -
  *                                                                          must equal B computed alone in a fresh process
+ *        c06_drv <out.ndjson> yscount <seed> <ncases> [first]              YScrambling (bootstrap / LOO validation inside, PLS / MLR / LDA) for every requested thread count 1..8
+ *        c06_drv <out.ndjson> calls  <seed> <schedule-file> <K>            two application threads (srand_ + K draws each) interleaved at CALL boundaries by the harness - no parking
+ *                                                                          inside the library, forceable on any implementation (also one that locks its generator)
+ * sched / dsched start with a LOCK PROBE: the gate parks workers only at hook points at which a parked thread does not keep other threads out of the generator.
  * Trace per run:  Reset ; Run{..} ; Seq{h} ; (Seed|Wrote|Read|Clock|Clear)* ; Result{h} ; End
  *   Seed{w,s}   : thread w entered srand_(s)
  *   Wrote{w,v,a}: thread w stored v into the generator word at address class a (srand_ or write half of a draw)
@@ -59,6 +63,10 @@ static int ident(int assign){
 }
 static int ev_overflow = 0;
 static void logev(int kind, int w, const volatile uint32_t *p, uint32_t v){ if(nev < MAXEV){ EV[nev].kind = kind; EV[nev].w = w; EV[nev].a = p ? addr_class(p) : 0; EV[nev].v = v; nev++; } else ev_overflow = 1; }
+/* Points of the generator functions at which a worker may be parked: the lock probe (below) clears the points at which a parked thread keeps the
+   other threads out of the generator (a library that serialises its generator calls with a lock).  All set: the fine-grained gate of the design.
+   None set: no schedule can be forced on this library (gate off; the un-gated blocks and the call-level choreography decide). */
+static int safe_pt[5] = {1, 1, 1, 1, 1}; static int gate_broken = 0;
 /* wait until the next letter of the schedule word is mine (called with gmu held) */
 static void wait_turn(int L){
   int waited = 0;
@@ -67,27 +75,73 @@ static void wait_turn(int L){
     struct timespec ts; clock_gettime(CLOCK_REALTIME, &ts); ts.tv_nsec += 20000000; if(ts.tv_nsec >= 1000000000){ ts.tv_sec++; ts.tv_nsec -= 1000000000; }
     pthread_cond_timedwait(&gcv, &gmu, &ts);
     if(waited > 100 && pos < slen && sched[pos] > nwt){ pos++; unforced++; pthread_cond_broadcast(&gcv); continue; }  /* 2 s: the letter's owner never appeared (fewer worker threads than the word has letters): skip the letter */
-    if(++waited > 1500){ stuck = 1; gate_on = 0; pthread_cond_broadcast(&gcv); break; }   /* 30 s without my turn: give up (infrastructure) */
+    if(++waited > 300){ stuck = 1; gate_on = 0; pthread_cond_broadcast(&gcv); break; }   /* 6 s without my turn: open the gate for good; the run is still recorded and judged, the lost forcing is reported at the very end */
   }
   inturn[L] = (gate_on && pos < slen && sched[pos] == L);
 }
-static void step_done(int L){ if(inturn[L]){ inturn[L] = 0; steps[L]++; pos++; pthread_cond_broadcast(&gcv); } }
+static void step_done(int L){
+  if(inturn[L]){ inturn[L] = 0; steps[L]++; pos++; pthread_cond_broadcast(&gcv); return; }
+  if(gate_on && steps[L] < Q){
+    /* a step taken out of turn (the worker could not be parked before it): pull its next letter forward so that the word keeps describing what happened */
+    int j = pos; while(j < slen && sched[j] != L) j++;
+    if(j < slen){ for(int i = j; i > pos; i--) sched[i] = sched[i - 1]; sched[pos] = L; pos++; }
+    steps[L]++; unforced++; pthread_cond_broadcast(&gcv);
+  }
+}
 static void rng_cb(int pt, const volatile uint32_t *word, uint32_t aux){
   pthread_mutex_lock(&gmu);
   int L = ident(pt == 0 || !gate_on);
   int gated = gate_on && L >= 1 && L <= NWK;
   /* a worker waits for its letter at the END of its previous step (parked inside the generator function, after the
      store / after the copy), so that everything the function still holds in flight is exposed to the other workers'
-     steps; the first step waits at its start */
+     steps; the first step waits at its start.  Points the lock probe found unsafe are passed without waiting. */
   switch(pt){
-    case 0: logev(3, L, word, aux); if(gated && steps[L] < Q && !inturn[L]) wait_turn(L); break;          /* before the seed store (aux = the seed) */
-    case 1: logev(1, L, word, aux); if(gated){ step_done(L); if(steps[L] < Q) wait_turn(L); } break;      /* after the seed store */
-    case 2: if(gated && steps[L] < Q && !inturn[L]) wait_turn(L); break;                                  /* before the read */
-    case 3: logev(2, L, word, aux); if(gated){ step_done(L); if(steps[L] < Q) wait_turn(L); } break;      /* after read, before write */
-    case 4: logev(1, L, word, aux); if(gated){ step_done(L); if(steps[L] < Q) wait_turn(L); } break;      /* after the write, before the value is computed */
+    case 0: logev(3, L, word, aux); if(gated && steps[L] < Q && !inturn[L] && safe_pt[0]) wait_turn(L); break;          /* before the seed store (aux = the seed) */
+    case 1: logev(1, L, word, aux); if(gated){ step_done(L); if(steps[L] < Q && safe_pt[1]) wait_turn(L); } break;      /* after the seed store */
+    case 2: if(gated && steps[L] < Q && !inturn[L] && safe_pt[2]) wait_turn(L); break;                                  /* before the read */
+    case 3: logev(2, L, word, aux); if(gated){ step_done(L); if(steps[L] < Q && safe_pt[3]) wait_turn(L); } break;      /* after read, before write */
+    case 4: logev(1, L, word, aux); if(gated){ step_done(L); if(steps[L] < Q && safe_pt[4]) wait_turn(L); } break;      /* after the write, before the value is computed */
   }
   pthread_mutex_unlock(&gmu);
 }
+/* ---- lock probe: can a thread be parked at point pt of a generator function while ANOTHER thread seeds and draws?  (once per process, before any forced run) */
+static int probe_pt = -1, probe_parked = 0, probe_release = 0; static pthread_t probe_t1;
+static void probe_cb(int pt, const volatile uint32_t *word, uint32_t aux){
+  (void)word; (void)aux;
+  pthread_mutex_lock(&gmu);
+  if(pt == probe_pt && pthread_equal(pthread_self(), probe_t1) && !probe_parked){
+    probe_parked = 1; pthread_cond_broadcast(&gcv);
+    while(!probe_release) pthread_cond_wait(&gcv, &gmu);
+  }
+  pthread_mutex_unlock(&gmu);
+}
+static void *probe_t1_main(void *a){ (void)a; srand_(11); (void)randInt(0, 100); return NULL; }
+static volatile int probe_t2_done = 0;
+static void *probe_t2_main(void *a){ (void)a; srand_(22); (void)randInt(0, 100); (void)randDouble(0.0, 1.0); (void)rand_(); pthread_mutex_lock(&gmu); probe_t2_done = 1; pthread_cond_broadcast(&gcv); pthread_mutex_unlock(&gmu); return NULL; }
+static int timed_wait_ms(int ms){ struct timespec ts; clock_gettime(CLOCK_REALTIME, &ts); ts.tv_nsec += (long)ms * 1000000L; while(ts.tv_nsec >= 1000000000){ ts.tv_sec++; ts.tv_nsec -= 1000000000; } return pthread_cond_timedwait(&gcv, &gmu, &ts); }
+static int lock_probe(void){
+  int mask = 0;
+  for(int pt = 0; pt < 5; pt++){
+    pthread_t t2; probe_pt = pt; probe_parked = 0; probe_release = 0; probe_t2_done = 0;
+    libsci_verif_rng = probe_cb;
+    pthread_mutex_lock(&gmu);
+    pthread_create(&probe_t1, NULL, probe_t1_main, NULL);
+    for(int i = 0; i < 100 && !probe_parked; i++) timed_wait_ms(20);
+    int parked = probe_parked;
+    pthread_mutex_unlock(&gmu);
+    pthread_create(&t2, NULL, probe_t2_main, NULL);
+    pthread_mutex_lock(&gmu);
+    for(int i = 0; i < 50 && !probe_t2_done; i++) timed_wait_ms(20);       /* 1 s: seeding and three draws take microseconds unless the parked thread keeps a lock */
+    int ok = parked && probe_t2_done;
+    probe_release = 1; pthread_cond_broadcast(&gcv);
+    pthread_mutex_unlock(&gmu);
+    pthread_join(probe_t1, NULL); pthread_join(t2, NULL);
+    libsci_verif_rng = NULL;
+    safe_pt[pt] = ok; if(!ok) mask |= 1 << pt;
+  }
+  return mask;
+}
+static int LOCKMASK = 0;
 time_t time(time_t *t){
   time_t v;
   if(fake_clock_on) v = fake_clock_val; else { struct timespec ts; clock_gettime(CLOCK_REALTIME, &ts); v = ts.tv_sec; }
@@ -121,7 +175,7 @@ static void *disturber_main(void *a_){
 }
 
 static void recorder_reset(void){ memset(dead, 0, sizeof(dead)); nclock = 0; nev = 0; nwt = 0; naddr = 0; pos = 0; stuck = 0; unforced = 0; memset(steps, 0, sizeof(steps)); memset(inturn, 0, sizeof(inturn)); main_tid = pthread_self(); }
-static void rec_start(int gated){ recorder_reset(); gate_on = gated; rec_on = 1; libsci_verif_rng = rng_cb; }
+static void rec_start(int gated){ recorder_reset(); gate_on = gated && !gate_broken && LOCKMASK != 31; rec_on = 1; libsci_verif_rng = rng_cb; }
 static void rec_stop(void){ libsci_verif_rng = NULL; gate_on = 0; rec_on = 0; }
 static void emit_events(void){
   if(ev_overflow){ VRT_EMIT("{\"e\":\"Overflow\"}"); }
@@ -205,7 +259,7 @@ static int child_sched(void *a_){
   int ncv = A->dist ? A->nw - 1 : A->nw;
   first_seed_has = 0; libsci_verif_rng = A->dist ? seed_spy : NULL; boot(P, A->groups, ncv, 1, seq); libsci_verif_rng = NULL;
   uint64_t hs = hash_matrix(seq);
-  { static char buf[4096]; int p = 0; p += snprintf(buf, sizeof(buf), "{\"e\":\"Run\",\"mode\":\"sched\",\"algo\":\"%s\",\"n\":%d,\"p\":%d,\"ny\":%d,\"nlv\":%d,\"groups\":%d,\"nw\":%d,\"k\":%d,\"dist\":%d,\"cls\":[\"%s\"],\"word\":[", ANAME[P->algo], P->n, P->p, P->ny, P->nlv, A->groups, A->nw, A->k, A->dist,
+  { static char buf[4096]; int p = 0; p += snprintf(buf, sizeof(buf), "{\"e\":\"Run\",\"mode\":\"sched\",\"algo\":\"%s\",\"n\":%d,\"p\":%d,\"ny\":%d,\"nlv\":%d,\"groups\":%d,\"nw\":%d,\"k\":%d,\"dist\":%d,\"lock\":%d,\"gate\":%d,\"cls\":[\"%s\"],\"word\":[", ANAME[P->algo], P->n, P->p, P->ny, P->nlv, A->groups, A->nw, A->k, A->dist, LOCKMASK, !gate_broken && LOCKMASK != 31,
       A->dist ? "K6:disturber-forced-cv" : A->nw >= 4 ? "K6:forced-4-workers" : A->nw == 3 && A->k >= 2 ? "K6:forced-3-workers-k2" : "K6:forced-schedule");
     for(int i = 0; i < A->wl; i++) p += snprintf(buf + p, sizeof(buf) - p, "%s%d", i ? "," : "", A->word[i]); snprintf(buf + p, sizeof(buf) - p, "]}"); VRT_EMIT("%s", buf); }
   VRT_EMIT("{\"e\":\"Seq\",\"h\":[%ld,%ld,%ld],\"fin\":%ld,\"num\":%ld}", H3(hs), HFIN, HNUM);
@@ -216,12 +270,12 @@ static int child_sched(void *a_){
   int nl = nlibc;
   if(A->dist){ dstop = 1; pthread_join(dth, NULL); }
   rec_stop();
-  if(stuck){ VRT_EMIT("{\"e\":\"Stuck\",\"pos\":%d}", pos); return 3; }
+  if(stuck) VRT_EMIT("{\"e\":\"Stuck\",\"pos\":%d}", pos);       /* the gate gave up on this word: the run went on un-gated and is judged like any other recording */
   emit_events();
   uint64_t hp = hash_matrix(par);
   VRT_EMIT("{\"e\":\"Result\",\"h\":[%ld,%ld,%ld],\"forced\":%d,\"addrs\":%d,\"skipped\":%d,\"nth\":%d,\"rep\":0,\"dq\":%ld,\"libc\":%d}", H3(hp), pos, naddr, unforced, ncv, rel_diff(seq, par), nl);
   VRT_EMIT("{\"e\":\"End\"}");
-  return 0;
+  return stuck ? 3 : 0;
 }
 
 typedef struct { prob *P; int iters; } yarg;
@@ -560,8 +614,8 @@ static int child_dsched(void *a_){
   quiet_begin(&so);
   fake_clock_on = 1; fake_clock_val = 1700000000;
   int nth = HASNTH[r] ? 2 : 1;
-  { static char buf[4096]; int p = 0; p += snprintf(buf, sizeof(buf), "{\"e\":\"Run\",\"mode\":\"dsched\",\"algo\":\"%s\",\"n\":%d,\"p\":%d,\"ny\":%d,\"nlv\":%d,\"groups\":%d,\"nw\":2,\"k\":%d,\"co\":0,\"ts\":%d,\"dist\":1,\"cls\":[\"K6:disturber-forced-direct\"],\"word\":[",
-      RNAME[r], C->n, C->p, C->ny, C->k, C->groups, A->k, CLOCKSEED[r]);
+  { static char buf[4096]; int p = 0; p += snprintf(buf, sizeof(buf), "{\"e\":\"Run\",\"mode\":\"dsched\",\"algo\":\"%s\",\"n\":%d,\"p\":%d,\"ny\":%d,\"nlv\":%d,\"groups\":%d,\"nw\":2,\"k\":%d,\"co\":0,\"ts\":%d,\"dist\":1,\"lock\":%d,\"gate\":%d,\"cls\":[\"K6:disturber-forced-direct\"],\"word\":[",
+      RNAME[r], C->n, C->p, C->ny, C->k, C->groups, A->k, CLOCKSEED[r], LOCKMASK, !gate_broken && LOCKMASK != 31);
     for(int i = 0; i < A->wl; i++) p += snprintf(buf + p, sizeof(buf) - p, "%s%d", i ? "," : "", A->word[i]); snprintf(buf + p, sizeof(buf) - p, "]}"); VRT_EMIT("%s", buf); }
   LIB_BEGIN(); uint64_t h1 = run_routine(C, nth); LIB_END();         /* reference: alone, on the calling thread */
   VRT_EMIT("{\"e\":\"Seq\",\"h\":[%ld,%ld,%ld],\"fin\":%ld,\"num\":%ld}", H3(h1), HFIN, HNUM);
@@ -573,12 +627,12 @@ static int child_dsched(void *a_){
   pthread_create(&rth, NULL, fresh_main, &F); pthread_create(&dth, NULL, disturber_main, &D);
   pthread_join(rth, NULL); LIB_END(); int nl = nlibc; dstop = 1; pthread_join(dth, NULL);
   rec_stop();
-  if(stuck){ VRT_EMIT("{\"e\":\"Stuck\",\"pos\":%d}", pos); quiet_end(so); return 3; }
+  if(stuck) VRT_EMIT("{\"e\":\"Stuck\",\"pos\":%d}", pos);
   emit_events();
   VRT_EMIT("{\"e\":\"Result\",\"h\":[%ld,%ld,%ld],\"forced\":%d,\"addrs\":%d,\"skipped\":%d,\"nth\":%d,\"rep\":0,\"fresh\":1,\"libc\":%d}", H3(F.h), pos, naddr, unforced, nth, nl);
   VRT_EMIT("{\"e\":\"End\"}");
   quiet_end(so);
-  return 0;
+  return stuck ? 3 : 0;
 }
 
 /* ================= stratified input / history classes (mode classes) ================= */
@@ -606,8 +660,77 @@ static const ccase CTAB[] = {
   { A_LDA, 1,    16, 2,  1, 0,  0,     0,    0, V_NONE,     3,    0,    0,    1,   0,   0,      3,   1, "\"K10:lda-3-classes-unsorted\",\"K6:nproc3\",\"K7:other-fit-between\"" },
   { A_MLR, 0,    33, 3,  2, 0,  8,     14,   0, V_OFFSET,   1,    1,    0,    0,   0,   1,      0,   0, "\"K3:offset-1e6\",\"K2:n=33\",\"K6:threads-7\",\"K1:residual-output\"" },
   { A_MLR, 2,    15, 2,  1, 0,  0,     0,    3, V_DUPROWS,  1,    1,    1,    0,   1,   0,      0,   0, "\"K8:duplicate-rows\",\"K7:reused-output\",\"K6:concurrent-disturber\",\"K6:threads>items\"" },
+  /* big enough that the group generation phases of concurrently started workers always overlap under natural scheduling (no gate involved) */
+  { A_MLR, 0,    300, 2, 1, 0,  3,     8,    0, V_NONE,     1,    0,    0,    0,   0,   1,      0,   0, "\"K2:n=300\",\"K6:overlapping-generation\",\"K6:threads-8\"" },
+  { A_PLS, 0,    300, 3, 2, 2,  4,     6,    0, V_NONE,     1,    1,    0,    0,   0,   0,      0,   0, "\"K2:n=300\",\"K6:overlapping-generation\",\"K6:threads-3-6\",\"K1:residual-output\"" },
+  { A_LDA, 0,    300, 2, 1, 0,  5,     4,    0, V_NONE,     1,    0,    0,    0,   0,   0,      2,   0, "\"K2:n=300\",\"K6:overlapping-generation\"" },
 };
 #define NCTAB ((int)(sizeof(CTAB) / sizeof(CTAB[0])))
+
+/* ================= y-scrambling across ALL requested thread counts 1..8, both validation types (mode yscount) ================= */
+typedef struct { prob *P; int loo; int iters; } ycarg;
+static int child_yscount(void *a_){
+  ycarg *A = a_; prob *P = A->P; int so;
+  vrt_force_nproc(1); vrt_install_iter_budget(200000, 0);
+  MODELINPUT in = initModelInput(); in.mx = P->x; in.my = P->y; in.nlv = P->algo == A_PLS ? P->nlv : 0; in.xautoscaling = 1; in.yautoscaling = 0;
+  ValidationArg va = initValidationArg(); va.vtype = A->loo ? LOO : BootstrapRGCV;
+  /* nw = the number of terms the validation inside merges per object (the pipelines' bootstrap runs 100 iterations; LOO assigns) */
+  VRT_EMIT("{\"e\":\"Run\",\"mode\":\"yscount:%s\",\"algo\":\"%s\",\"n\":%d,\"p\":%d,\"ny\":%d,\"nlv\":%d,\"groups\":3,\"nw\":%d,\"k\":0,\"word\":[],\"cls\":[\"K6:yscrambling-threads-1..8\"]}",
+           A->loo ? "loo" : "boot", ANAME[P->algo], P->n, P->p, P->ny, P->nlv, A->loo ? 1 : 100);
+  matrix *ref = NULL; uint64_t h1 = 0;
+  quiet_begin(&so);
+  for(int nth = 1; nth <= 8; nth++){
+    for(int rep = 0; rep < (nth == 3 ? 2 : 1); rep++){
+      matrix *cc; initMatrix(&cc);
+      srand_(777 + nth);                                                     /* the caller's own stream is somewhere else every time */
+      LIB_BEGIN(); YScrambling(&in, ATYPE[P->algo], va, A->iters, cc, nth, NULL); LIB_END();
+      int nl = nlibc; uint64_t h = hash_matrix(cc);
+      if(nth == 1){ h1 = h; initMatrix(&ref); MatrixCopy(cc, &ref); VRT_EMIT("{\"e\":\"Seq\",\"h\":[%ld,%ld,%ld],\"fin\":%ld,\"num\":%ld,\"nth\":1}", H3(h1), HFIN, HNUM); }
+      else VRT_EMIT("{\"e\":\"Result\",\"h\":[%ld,%ld,%ld],\"forced\":0,\"addrs\":0,\"nth\":%d,\"rep\":%d,\"dq\":%ld,\"libc\":%d}", H3(h), nth, rep, rel_diff(ref, cc), nl);
+      DelMatrix(&cc);
+    }
+  }
+  quiet_end(so);
+  VRT_EMIT("{\"e\":\"End\"}");
+  return 0;
+}
+
+/* ================= two application threads using the generator, interleaved at CALL boundaries by the harness (mode calls) =================
+   No thread is ever parked inside the library: this choreography can be forced on any implementation, also one that serialises its generator
+   calls with a lock.  Program of a thread: srand_(seed), then K draws (randInt / randDouble / rand_ in turn). */
+typedef struct { int id; uint32_t seed; int k; double out[16]; } callprog;
+static int CW[64], cwl = 0, cpos = 0; static pthread_mutex_t cmu = PTHREAD_MUTEX_INITIALIZER; static pthread_cond_t ccv = PTHREAD_COND_INITIALIZER;
+static void call_turn(int id){ pthread_mutex_lock(&cmu); while(cwl && cpos < cwl && CW[cpos] != id) pthread_cond_wait(&ccv, &cmu); pthread_mutex_unlock(&cmu); }
+static void call_done(void){ pthread_mutex_lock(&cmu); cpos++; pthread_cond_broadcast(&ccv); pthread_mutex_unlock(&cmu); }
+static void *callprog_main(void *a_){
+  callprog *C = a_;
+  call_turn(C->id); srand_(C->seed); call_done();
+  for(int i = 0; i < C->k; i++){ call_turn(C->id); C->out[i] = i % 3 == 0 ? (double)randInt(0, 1000000) : i % 3 == 1 ? randDouble(0.0, 1.0) : rand_(); call_done(); }
+  return NULL;
+}
+typedef struct { int *word; int wl; int k; uint32_t seed; } clarg;
+static uint64_t hash_calls(callprog *a, callprog *b){ HACC = 1469598103934665603ULL; hb(a->out, 8 * a->k); hb(b->out, 8 * b->k); HNUM += a->k + b->k; HFIN += a->k + b->k; return HACC; }
+static int child_calls(void *a_){
+  clarg *A = a_;
+  /* project the word onto calls: a call is ordered by the position of its first letter (seed store; read half of a draw) */
+  int q = A->wl / 2, seen[3] = {0, 0, 0}; cwl = 0;
+  for(int i = 0; i < A->wl; i++){ int L = A->word[i]; if(L < 1 || L > 2) continue; int st = seen[L]++; if(st == 0 || (st % 2 == 1 && st < q)) CW[cwl++] = L; }
+  { static char buf[1024]; int p = 0; p += snprintf(buf, sizeof(buf), "{\"e\":\"Run\",\"mode\":\"calls\",\"algo\":\"srand_+draws\",\"n\":0,\"p\":0,\"ny\":0,\"nlv\":0,\"groups\":0,\"nw\":2,\"k\":%d,\"co\":0,\"ts\":0,\"dist\":1,\"cls\":[\"K6:call-level-interleaving\"],\"word\":[", A->k);
+    for(int i = 0; i < cwl; i++) p += snprintf(buf + p, sizeof(buf) - p, "%s%d", i ? "," : "", CW[i]); snprintf(buf + p, sizeof(buf) - p, "]}"); VRT_EMIT("%s", buf); }
+  callprog P1 = {1, A->seed, A->k, {0}}, P2 = {2, A->seed + 1, A->k, {0}}, R1 = P1, R2 = P2; pthread_t t1, t2;
+  int saved = cwl; cwl = 0;                                                  /* reference: each program alone, one after the other */
+  pthread_create(&t1, NULL, callprog_main, &R1); pthread_join(t1, NULL); pthread_create(&t2, NULL, callprog_main, &R2); pthread_join(t2, NULL);
+  uint64_t h1 = hash_calls(&R1, &R2);
+  VRT_EMIT("{\"e\":\"Seq\",\"h\":[%ld,%ld,%ld],\"fin\":%ld,\"num\":%ld}", H3(h1), HFIN, HNUM);
+  cwl = saved; cpos = 0;
+  rec_start(0);
+  LIB_BEGIN(); pthread_create(&t1, NULL, callprog_main, &P1); pthread_create(&t2, NULL, callprog_main, &P2); pthread_join(t1, NULL); pthread_join(t2, NULL); LIB_END();
+  rec_stop();
+  emit_events();
+  VRT_EMIT("{\"e\":\"Result\",\"h\":[%ld,%ld,%ld],\"forced\":%d,\"addrs\":%d,\"skipped\":0,\"nth\":2,\"rep\":0,\"libc\":%d}", H3(hash_calls(&P1, &P2)), cpos, naddr, nlibc);
+  VRT_EMIT("{\"e\":\"End\"}");
+  return 0;
+}
 
 static void crash(int rc, const char *mode, prob *P){ VRT_EMIT("{\"e\":\"Crash\",\"rc\":%d,\"mode\":\"%s\",\"algo\":\"%s\",\"n\":%d}", rc, mode, ANAME[P->algo], P->n); }
 
@@ -621,6 +744,7 @@ int main(int argc, char **argv){
   if(!strcmp(mode, "sched")){
     FILE *f = fopen(argv[4], "r"); if(!f){ perror("sched"); return 2; }
     int nw = atoi(argv[5]), k = atoi(argv[6]); char line[4096]; int t = 0;
+    LOCKMASK = lock_probe();
     while(fgets(line, sizeof(line), f)){
       int word[256], wl = 0; char *tok = strtok(line, " \n"); while(tok && wl < 256){ word[wl++] = atoi(tok); tok = strtok(NULL, " \n"); }
       if(wl == 0) continue;
@@ -632,7 +756,9 @@ int main(int argc, char **argv){
       sarg A = {&P, algo == A_LDA ? 8 : 3, nw, word, wl, k, dist};
       VRT_EMIT("{\"e\":\"Reset\"}");
       int rc = vrt_run_child(child_sched, &A, 120);
-      if(rc == 3) infra = 1; else if(rc != 0) crash(rc, "sched", &P);
+      static int hung = 0; hung = rc == 124 ? hung + 1 : 0;
+      if(rc == 3) gate_broken = 1; else if(rc != 0) crash(rc, "sched", &P);
+      if(hung >= 2){ VRT_EMIT("{\"e\":\"Abandon\",\"after\":%d}", t); free_problem(&P); infra = 1; break; }      /* two runs in a row hit the watchdog: do not spend 120 s on every remaining word */      /* a word the gate could not force: the remaining words of this process run un-gated (recorded and judged all the same) */
       free_problem(&P);
     }
     fclose(f);
@@ -741,6 +867,7 @@ int main(int argc, char **argv){
   else if(!strcmp(mode, "dsched")){
     FILE *f = fopen(argv[4], "r"); if(!f){ perror("dsched"); return 2; }
     int k = atoi(argv[5]), first = argc > 6 ? atoi(argv[6]) : 0; char line[4096]; int t = first;
+    LOCKMASK = lock_probe();
     while(fgets(line, sizeof(line), f)){
       int word[256], wl = 0; char *tok = strtok(line, " \n"); while(tok && wl < 256){ word[wl++] = atoi(tok); tok = strtok(NULL, " \n"); }
       if(wl == 0) continue;
@@ -749,8 +876,35 @@ int main(int argc, char **argv){
       dsarg A = {&C, word, wl, k};
       VRT_EMIT("{\"e\":\"Reset\"}");
       int rc = vrt_run_child(child_dsched, &A, 120);
-      if(rc == 3) infra = 1; else if(rc != 0) VRT_EMIT("{\"e\":\"Crash\",\"rc\":%d,\"mode\":\"dsched\",\"algo\":\"%s\",\"n\":%d}", rc, RNAME[r], C.n);
+      static int hung = 0; hung = rc == 124 ? hung + 1 : 0;
+      if(hung >= 2){ VRT_EMIT("{\"e\":\"Abandon\",\"after\":%d}", t); free_dcase(&C); infra = 1; break; }
+      if(rc == 3) gate_broken = 1; else if(rc != 0) VRT_EMIT("{\"e\":\"Crash\",\"rc\":%d,\"mode\":\"dsched\",\"algo\":\"%s\",\"n\":%d}", rc, RNAME[r], C.n);
       free_dcase(&C);
+    }
+    fclose(f);
+  }
+  else if(!strcmp(mode, "yscount")){
+    int nc = atoi(argv[4]), first = argc > 5 ? atoi(argv[5]) : 0;
+    for(int t = first; t < first + nc; t++){
+      int algo = t % 3, loo = (t / 3) % 2;
+      prob P; if(algo == A_LDA) gen_lda(&P, &R, 12 + t % 3, 2, 2, 0); else gen_problem(&P, &R, algo, 9 + t % 4, 2, 1, 1);
+      ycarg A = {&P, loo, 2};
+      VRT_EMIT("{\"e\":\"Reset\"}");
+      int rc = vrt_run_child(child_yscount, &A, 600);
+      if(rc != 0) crash(rc, "yscount", &P);
+      free_problem(&P);
+    }
+  }
+  else if(!strcmp(mode, "calls")){
+    FILE *f = fopen(argv[4], "r"); if(!f){ perror("calls"); return 2; }
+    int k = atoi(argv[5]); char line[4096]; int t = 0;
+    while(fgets(line, sizeof(line), f)){
+      int word[256], wl = 0; char *tok = strtok(line, " \n"); while(tok && wl < 256){ word[wl++] = atoi(tok); tok = strtok(NULL, " \n"); }
+      if(wl == 0) continue;
+      clarg A = {word, wl, k, 5000u + (uint32_t)vr_int(&R, 0, 1000000)}; t++;
+      VRT_EMIT("{\"e\":\"Reset\"}");
+      int rc = vrt_run_child(child_calls, &A, 60);
+      if(rc != 0) VRT_EMIT("{\"e\":\"Crash\",\"rc\":%d,\"mode\":\"calls\",\"algo\":\"srand_+draws\",\"n\":0}", rc);
     }
     fclose(f);
   }
